@@ -39,6 +39,7 @@ type hEnv struct {
 	flushes int
 	reopens int
 	retires int
+	maxMem  int  // MaxMemTables to store in the manifest at creation (0 = default); also the level-0 compaction trigger
 	wk      int  // number of keys single writes may address (0 = all)
 	sync    int  // WALSyncMode + 1 to store in the manifest at creation (0 = default)
 	dirty   bool // a write happened since the last flush (its data may exist only in memtable + log)
@@ -61,10 +62,13 @@ func (h *hEnv) hKeys(nk int) {
 func (h *hEnv) hOpen(first bool, smallMem bool) {
 	if first {
 		h.dir = vsym.Dir()
-		if smallMem || h.sync != 0 {
+		if smallMem || h.sync != 0 || h.maxMem != 0 {
 			cfg := config.NewDefaultConfig(h.dir)
 			if smallMem {
 				cfg.MemTableSize = 1 // every write fills the table: versions spread over immutable tables
+			}
+			if h.maxMem != 0 {
+				cfg.MaxMemTables = h.maxMem
 			}
 			if h.sync != 0 {
 				cfg.WALSyncMode = config.SyncMode(h.sync - 1)
@@ -234,6 +238,15 @@ func (h *hEnv) hProbe() {
 		vsym.Assert(ok, "get returns bytes that are not the latest put of the key")
 	} else {
 		vsym.Assert(vsym.Not(expect), "get does not find a key whose latest write is a put")
+	}
+}
+
+// hProbeKey reads one key of the universe and compares with the model.
+func (h *hEnv) hProbeKey(i int) {
+	got, err := h.e.Get(h.K[i])
+	vsym.Assert((err == nil) == h.present[i], "a key reads differently than its latest write says (lost, or a deleted key back)")
+	if err == nil && h.present[i] {
+		vsym.Assert(vsym.EqBytes(got, h.val[i]), "a key reads an older value than its latest write")
 	}
 }
 
